@@ -477,7 +477,8 @@ pub fn generate(r: &mut Rng, focus: &str) -> HwScn {
 pub struct FakeOfferScn {
     /// type of the file (set by a first ordinary write)
     pub ty: i32,
-    /// type code the user-defined shape claims: 1, 3 or 31
+    /// type code the user-defined shape claims: any of the 14 codes of `ShapeType`, NullShape (0)
+    /// included - the crate has no null shape of its own that can be written, a caller can have one
     pub fake_code: i32,
     /// size in bytes it announces
     pub announced: u64,
@@ -511,7 +512,7 @@ impl<const CODE: i32> shapefile::record::EsriShape for Fake<CODE> {
 
 pub fn execute_fake(scn: &FakeOfferScn, ctx: &mut Ctx) {
     use crate::on_shape;
-    if !TYPES.contains(&scn.ty) || ![1, 3, 31].contains(&scn.fake_code) || scn.fake_code == scn.ty {
+    if !TYPES.contains(&scn.ty) || !(scn.fake_code == 0 || TYPES.contains(&scn.fake_code)) || scn.fake_code == scn.ty {
         ctx.fail("HARNESS", "invalid-scenario", "fake", "bad fake offer".to_string());
         return;
     }
@@ -530,8 +531,19 @@ pub fn execute_fake(scn: &FakeOfferScn, ctx: &mut Ctx) {
             let ev0 = world.borrow().log.len();
             let a = scn.announced as usize;
             let r = guarded(|| match scn.fake_code {
+                0 => w.write_shape(&Fake::<0> { announced: a }),
                 1 => w.write_shape(&Fake::<1> { announced: a }),
                 3 => w.write_shape(&Fake::<3> { announced: a }),
+                5 => w.write_shape(&Fake::<5> { announced: a }),
+                8 => w.write_shape(&Fake::<8> { announced: a }),
+                11 => w.write_shape(&Fake::<11> { announced: a }),
+                13 => w.write_shape(&Fake::<13> { announced: a }),
+                15 => w.write_shape(&Fake::<15> { announced: a }),
+                18 => w.write_shape(&Fake::<18> { announced: a }),
+                21 => w.write_shape(&Fake::<21> { announced: a }),
+                23 => w.write_shape(&Fake::<23> { announced: a }),
+                25 => w.write_shape(&Fake::<25> { announced: a }),
+                28 => w.write_shape(&Fake::<28> { announced: a }),
                 _ => w.write_shape(&Fake::<31> { announced: a }),
             });
             let res = match r {
@@ -567,7 +579,7 @@ pub fn execute_fake(scn: &FakeOfferScn, ctx: &mut Ctx) {
 
 pub fn fake_unit(unit: u64, ctx: &mut Ctx, ctl: &mut UnitCtl) {
     let ty = TYPES[(unit % 13) as usize];
-    for fake_code in [1, 3, 31] {
+    for fake_code in [0, 1, 3, 5, 8, 11, 13, 15, 18, 21, 23, 25, 28, 31] {
         if fake_code == ty {
             continue;
         }
